@@ -252,3 +252,21 @@ def resolve_local(func, e, depth=0):
     if len(srcs) == 1 and srcs[0] is not None:
         return resolve_local(func, srcs[0], depth + 1)
     return e
+
+
+def nullness(c, truth):
+    """(expression node, is_null) when the condition with that truth value says a pointer-like
+    expression is NULL / zero or not: handles x, !x, x == NULL, x != NULL, x == 0."""
+    c, t = negate_truth(c, truth)
+    if c["k"] == "bin" and c["op"] in ("==", "!="):
+        r = strip_casts(c["r"])
+        l = strip_casts(c["l"])
+        isz = lambda n: n is not None and ((n["k"] == "int" and n["v"] == 0) or n.get("cv") == 0)
+        if isz(r):
+            return l, (t == (c["op"] == "=="))
+        if isz(l):
+            return r, (t == (c["op"] == "=="))
+        return None
+    if c["k"] in ("ref", "member", "sub", "call", "un"):
+        return c, (not t)
+    return None
